@@ -153,15 +153,27 @@ static int test_nonce_add_fail(unsigned char *nonce32, const unsigned char *msg3
     if (counter == d[32]) return 0;
     return test_nonce_add(nonce32, msg32, key32, algo16, data, counter);
 }
+static int test_nonce_zero_then_rfc6979(unsigned char *nonce32, const unsigned char *msg32, const unsigned char *key32, const unsigned char *algo16, void *data, unsigned int counter) {
+    /* an invalid (all-zero) nonce at the first attempt, the library's RFC 6979 function with the same counter afterwards */
+    if (counter == 0) { memset(nonce32, 0, 32); return 1; }
+    return secp256k1_nonce_function_rfc6979(nonce32, msg32, key32, algo16, data, counter);
+}
 static secp256k1_nonce_function nonce_kind(long long kind) {
-    return kind == 0 ? NULL : kind == 1 ? secp256k1_nonce_function_rfc6979 : kind == 2 ? test_nonce_add : test_nonce_add_fail;
+    return kind == 0 ? NULL : kind == 1 ? secp256k1_nonce_function_rfc6979 : kind == 2 ? test_nonce_add : kind == 3 ? test_nonce_add_fail : test_nonce_zero_then_rfc6979;
+}
+static void op_nonce_function_rfc6979(void) {
+    /* msg32 key32 algo16|- data32|- #counter : the exported nonce function called directly */
+    unsigned char out[32], algo[16], data[32]; int ret;
+    if (!is_none(2)) memcpy(algo, BN(2, 16), 16); if (!is_none(3)) memcpy(data, BN(3, 32), 32); memset(out, 0x55, 32);
+    ret = secp256k1_nonce_function_rfc6979(out, BN(0, 32), BN(1, 32), is_none(2) ? NULL : algo, is_none(3) ? NULL : data, (unsigned int)I(4));
+    out_int(ret); if (ret) out_bytes(out, 32);
 }
 static void op_ecdsa_sign(void) {
     /* #kind msg32 seckey32 data|- */
     secp256k1_ecdsa_signature sig; int ret; unsigned char data[33] = {0}; memset(&sig, 0xAA, sizeof(sig));
     if (!is_none(3)) memcpy(data, B(3), L(3) < 33 ? L(3) : 33);
     if (I(0) >= 2 && is_none(3)) data[32] = 255;
-    ret = secp256k1_ecdsa_sign(CTX, &sig, BN(1, 32), BN(2, 32), nonce_kind(I(0)), (is_none(3) && I(0) < 2) ? NULL : data);
+    ret = secp256k1_ecdsa_sign(CTX, &sig, BN(1, 32), BN(2, 32), nonce_kind(I(0)), (is_none(3) && (I(0) < 2 || I(0) == 4)) ? NULL : data);
     out_int(ret);
     if (!ret && !all_zero(sig.data, 64)) out_int(-77);
     out_sig(&sig);
@@ -173,7 +185,7 @@ static void op_ecdsa_sign_alias(void) {
     memset(&sig, 0xAA, sizeof(sig));
     if (!is_none(3)) memcpy(data, B(3), L(3) < 33 ? L(3) : 33);
     if (I(0) >= 2 && is_none(3)) data[32] = 255;
-    nd = (is_none(3) && I(0) < 2) ? NULL : data;
+    nd = (is_none(3) && (I(0) < 2 || I(0) == 4)) ? NULL : data;
     if (where == 1) { memcpy(sig.data, m, 32); m = sig.data; }
     else if (where == 2) { memcpy(sig.data + 32, k, 32); k = sig.data + 32; }
     else if (where == 3 && nd != NULL && I(0) < 2) { memcpy(sig.data + 16, data, 32); nd = sig.data + 16; }
@@ -186,7 +198,7 @@ static void op_ecdsa_sign_recoverable(void) {
     secp256k1_ecdsa_recoverable_signature sig; int ret, recid = -1; unsigned char data[33] = {0}, c[65]; memset(&sig, 0xAA, sizeof(sig));
     if (!is_none(3)) memcpy(data, B(3), L(3) < 33 ? L(3) : 33);
     if (I(0) >= 2 && is_none(3)) data[32] = 255;
-    ret = secp256k1_ecdsa_sign_recoverable(CTX, &sig, BN(1, 32), BN(2, 32), nonce_kind(I(0)), (is_none(3) && I(0) < 2) ? NULL : data);
+    ret = secp256k1_ecdsa_sign_recoverable(CTX, &sig, BN(1, 32), BN(2, 32), nonce_kind(I(0)), (is_none(3) && (I(0) < 2 || I(0) == 4)) ? NULL : data);
     out_int(ret);
     secp256k1_ecdsa_recoverable_signature_serialize_compact(CTX, c, &recid, &sig); c[64] = (unsigned char)recid;
     out_bytes(c, 65);
@@ -287,7 +299,7 @@ static const op_entry ops_core[] = {
     OP(ecdsa_signature_serialize_der), OP(ecdsa_signature_serialize_compact), OP(ecdsa_signature_normalize),
     OP(ecdsa_verify), OP(ecdsa_sign), OP(ecdsa_sign_recoverable), OP(recoverable_parse_compact),
     OP(recoverable_serialize_compact), OP(recoverable_convert), OP(ecdsa_recover),
-    OP(ecdsa_sign_alias), OP(schnorrsig_sign32_alias), OP(schnorrsig_sign32), OP(schnorrsig_sign_custom), OP(nonce_function_bip340), OP(schnorrsig_verify),
+    OP(ecdsa_sign_alias), OP(schnorrsig_sign32_alias), OP(schnorrsig_sign32), OP(schnorrsig_sign_custom), OP(nonce_function_bip340), OP(nonce_function_rfc6979), OP(schnorrsig_verify),
     OP(sha256), OP(hmac_sha256), OP(tagged_sha256), OP(rfc6979),
     {NULL, NULL}
 };
